@@ -73,10 +73,22 @@ Known(e, prop, d) ==
           d = "C03/InvalidAfterRoundTrip" /\ BoxedOptionField
           /\ Contained(Prune(v), Prune(e.out)) /\ JEq(Prune(v), Prune(e.out)) }
     ELSE
-    { k \in {"C02-integer-narrower-than-schema", "C02-mixed-open-closed-variants",
+    { k \in {"C02-variants-share-property-name", "C02-integer-narrower-than-schema", "C02-mixed-open-closed-variants",
              "C02-open-single-property-branch-as-external-variant", "C02-anyof-string-enums-flattened"} :
       /\ prop = "C02" /\ d = "C02/ValidInstanceRejected"
       /\ CASE k = "C02-integer-narrower-than-schema" -> ModelNarrow(T, v)
+           [] k = "C02-variants-share-property-name" ->
+                (* two object variants declare a property of the same name with different inline schemas;
+                   the inline types get one derived name and the later variant silently reuses the
+                   first one's type: the probe is valid for the later variant, its member is not
+                   valid for the earlier variant's schema of that name *)
+                /\ SHas(T, "oneOf") /\ v.t = "obj"
+                /\ \E i, j \in DOMAIN T.oneOf :
+                      /\ i < j /\ IsObjBranch(T.oneOf[i]) /\ IsObjBranch(T.oneOf[j])
+                      /\ Valid(T.oneOf[j], v, cur.defs)
+                      /\ \E pn \in DOMAIN T.oneOf[i].properties \cap DOMAIN T.oneOf[j].properties :
+                            /\ T.oneOf[i].properties[pn] # T.oneOf[j].properties[pn]
+                            /\ HasKey(v, pn) /\ ~Valid(T.oneOf[i].properties[pn], Get(v, pn), cur.defs)
            [] k = "C02-mixed-open-closed-variants" ->
                 /\ SHas(T, "oneOf")
                 /\ \E i \in DOMAIN T.oneOf : IsObjBranch(T.oneOf[i]) /\ Closed(T.oneOf[i])
